@@ -17,6 +17,8 @@ CLAIMED = {
             "implies minimality; G/s^2+reg_eps I is symmetric PSD; the minimiser is unique (reg_eps>0); the "
             "DualProj/UPGrad models return J^T w for THE minimiser(s) named in the property; with no conflicting "
             "pair (or s<norm_eps) and u>=0 they return exactly J^T u; wrong-length pref vectors are rejected. "
+            "THE minimiser exists and is unique on both sides of the norm_eps branch (C03_minimiser_exists_and_is_unique: Lipschitz functions "
+            "attain their minimum on boxes, by induction on the dimension with one-dimensional compactness; no choice axiom; uses Classical_Prop.classic). "
             "The QP kernel is an oracle whose answers the harness computes exactly (active sets over Fractions) "
             "and whose KKT certificates Coq re-checks exactly. Correspondence + direct oracle on random "
             "matrices of all categories, f32/f64.",
